@@ -46,6 +46,136 @@ def gen_case(rng):
     return head + "\r" + rng.choice(VISIBLE) + rng.choice(["", ESC + "[m"]), "visible"
 
 
+# ------------------------------------------------------------------ escape-heavy long lines (added for C09-w5-09)
+#
+# Lines whose BYTES are mostly escape sequences: many times longer in bytes than wide in columns. Nothing in `WORDS`
+# above gets denser than 11 bytes for 3 columns, and lines there have at most ~20 words, so a line never was much longer
+# than a small `max-line-length` while still *fitting* it in columns, and its sequences never lay beyond a small multiple
+# of the limit in bytes. Used by C04 (hook_part below) and by C09 (vlib/props/c09.py).
+
+HEAVY_SHAPES = ["rainbow", "tokens", "link", "escape-tail", "late-close", "mixed"]
+HEAVY_CHARS = list("abcdefghijklmnopqrstuvwxyzABCXYZ0123456789_=;(){}") + ["é", "日", "本", "ｗ", "😀", "ß"]
+HEAVY_WORDS = ["let", "x", "=", "f(a,", "b);", "fn", "main()", "{", "}", "return", "日本語", "naïve", "42;", "//", "ok"]
+
+
+def _sgr_open(rng):
+    k = rng.random()
+    if k < 0.4:
+        return ESC + "[38;2;%d;%d;%dm" % (rng.randint(0, 255), rng.randint(0, 255), rng.randint(0, 255))
+    if k < 0.6:
+        return ESC + "[1;4;38;5;%d;48;5;%dm" % (rng.randint(16, 255), rng.randint(232, 255))
+    if k < 0.75:
+        return ESC + "[38;2;%d;%d;%d;48;2;%d;%d;%dm" % tuple(rng.randint(0, 255) for _ in range(6))
+    if k < 0.9:
+        return ESC + "[%dm" % rng.choice([1, 3, 4, 7, 31, 32, 36, 91, 44])
+    return ESC + "[1;3;4;7;9;38;5;%dm" % rng.randint(0, 255)
+
+
+def _sgr_close(rng):
+    return ESC + rng.choice(["[0m", "[m", "[0m", "[22;23;24;27;29;39;49m" + ESC + "[0m"])
+
+
+def gen_escape_heavy(rng, max_len, shape=None, multiple=None):
+    """-> (items, shape): a balanced line as items [('t', text) | ('e', one escape sequence)], no two adjacent text
+    items, no CR, whose byte length is at least `multiple` x (max_len + 1) (+ a random remainder, so that the end, and
+    any byte offset derived from the limit, falls at every position of a sequence over the runs). Every SGR that is
+    opened is reset and every OSC 8 link closed before the end - possibly only at the very end of the line."""
+    shape = shape or rng.choice(HEAVY_SHAPES)
+    multiple = multiple or rng.choice([1, 2, 3, 4, 4, 5, 6, 8, 8, 12, 16, 33])
+    target = multiple * (max_len + 1) + rng.randint(1, 48)
+    items = []
+
+    def size():
+        return sum(len(s.encode()) for _, s in items)
+
+    def text(t):
+        if not t:
+            return
+        if items and items[-1][0] == "t":
+            items[-1] = ("t", items[-1][1] + t)
+        else:
+            items.append(("t", t))
+
+    def esc(s_):
+        items.append(("e", s_))
+    if shape == "rainbow":
+        if rng.random() < 0.5:
+            text(rng.choice(["== ", "log: ", "x"]))
+        while size() < target:
+            esc(_sgr_open(rng)); text(rng.choice(HEAVY_CHARS)); esc(_sgr_close(rng))
+    elif shape == "tokens":
+        while size() < target:
+            esc(_sgr_open(rng)); text(rng.choice(HEAVY_WORDS)); esc(_sgr_close(rng)); text(" ")
+    elif shape == "link":
+        text(rng.choice(["see ", "", "at "]))
+        while size() < target:
+            url = "https://ci.example.org/builds/" + "artifact/" * rng.randint(1, max(2, target // 12)) + "log.txt"
+            esc(ESC + "]8;;" + url + rng.choice([ESC + "\\", "\x07"]))
+            if rng.random() < 0.6:
+                esc(ESC + "[4m"); text(rng.choice(["the log", "x", "日本"])); esc(ESC + "[0m")
+            else:
+                text(rng.choice(["here", "l"]))
+            esc(ESC + "]8;;" + rng.choice([ESC + "\\", "\x07"]))
+            text(rng.choice([" ", ", ", " and "]))
+    elif shape == "escape-tail":
+        # the text fits the limit in columns; the bytes beyond it are sequences only
+        w = rng.randint(0, max_len)
+        text("".join(rng.choice("abcdefgh ") for _ in range(w)))
+        while size() < target:
+            esc(_sgr_open(rng))
+            if rng.random() < 0.3:
+                esc(ESC + "[K")
+            esc(_sgr_close(rng))
+    elif shape == "late-close":
+        # opened early (rendition and link), closed only at the very end, escape-dense in between
+        esc(_sgr_open(rng))
+        link = rng.random() < 0.5
+        if link:
+            esc(ESC + "]8;;file:///tmp/x.rs" + ESC + "\\")
+        text("".join(rng.choice("abcdefgh") for _ in range(rng.randint(0, max_len))))
+        while size() < target:
+            esc(ESC + "[%dm" % rng.choice([1, 3, 4, 7, 33, 45]))
+            if rng.random() < 0.3:
+                text(rng.choice(HEAVY_CHARS))
+        if link:
+            esc(ESC + "]8;;" + ESC + "\\")
+        esc(ESC + "[0m")
+    else:
+        open_sgr = open_link = False
+        while size() < target:
+            k = rng.random()
+            if k < 0.25:
+                text(rng.choice(HEAVY_WORDS + [" "]))
+            elif k < 0.7:
+                if open_sgr and rng.random() < 0.5:
+                    esc(_sgr_close(rng)); open_sgr = False
+                else:
+                    esc(_sgr_open(rng)); open_sgr = True
+            elif k < 0.9:
+                if open_link:
+                    esc(ESC + "]8;;" + ESC + "\\"); open_link = False
+                else:
+                    esc(ESC + "]8;;http://example.com/" + "p/" * rng.randint(0, 30) + ESC + "\\"); open_link = True
+            else:
+                esc(ESC + rng.choice(["[K", "[0K"]))
+        if open_link:
+            esc(ESC + "]8;;" + ESC + "\\")
+        if open_sgr:
+            esc(ESC + "[0m")
+    # split any item that holds two sequences (the closers above) into one item per sequence
+    out = []
+    for k, s_ in items:
+        if k == "e" and s_.count(ESC + "[") + s_.count(ESC + "]") > 1:
+            for part in re.findall("\x1b\\][^\x07\x1b]*(?:\x07|\x1b\\\\)|\x1b\\[[0-9;]*[A-Za-z]", s_):
+                out.append(("e", part))
+        else:
+            out.append((k, s_))
+    return out, shape
+
+
+HEAVY_LIMITS = [1, 2, 3, 5, 8, 10, 20, 25, 40, 100]
+
+
 def expected_raw(line, kind):
     """The documented behaviour, from the generator's own knowledge of the line's structure."""
     if kind in ("nothing", "seq", "zero"):
@@ -119,6 +249,11 @@ def hook_part(ctx, rep, report):
         cases = [gen_case(rng) for _ in range(ctx.n(30, 120))]
         cases += [("ab\r" + ESC + "[m", "seq"), ("Fetching\r" + ESC + "[32mdone" + ESC + "[m", "visible"),
                   ("Compiling 1/3\r" + ESC + "[KCompiling 2/3", "visible")]
+        if max_len > 0:
+            for _ in range(ctx.n(6, 30)):
+                hv, shape = gen_escape_heavy(rng, max_len)
+                cases.append(("".join(x for _, x in hv), None))
+                rep.count("ingest:escape-heavy:" + shape)
         ans = hook.ask([cfgline, "machine.ingest_cfg"] + [f"machine.ingest {hx(l)}" for l, _ in cases], sticky=[0])
         c = ans[1].split()
         ml, symb = int(c[1]), (unhx(c[2]) if len(c) > 2 else b"")
